@@ -203,6 +203,46 @@ impl From<Sealed> for Vec<u8> {
     }
 }
 
+/// Verification hooks: the private envelope and the sealing entry points, unchanged.
+#[cfg(gothenburgbitfactory_taskchampion_verif)]
+pub(crate) mod verif_hooks {
+    use super::*;
+
+    pub fn envelope_from_bytes(buf: &[u8]) -> Result<(Vec<u8>, Vec<u8>)> {
+        let env = Envelope::from_bytes(buf)?;
+        Ok((env.nonce.to_vec(), env.payload.to_vec()))
+    }
+
+    pub fn envelope_to_bytes(nonce: &[u8], payload: &[u8]) -> Vec<u8> {
+        Envelope { nonce, payload }.to_bytes()
+    }
+
+    pub fn seal(salt: &[u8], secret: &[u8], version_id: Uuid, payload: Vec<u8>) -> Result<Vec<u8>> {
+        let cryptor = Cryptor::new(salt, &Secret(secret.to_vec()))?;
+        Ok(cryptor
+            .seal(Unsealed {
+                version_id,
+                payload,
+            })?
+            .payload)
+    }
+
+    pub fn unseal(
+        salt: &[u8],
+        secret: &[u8],
+        version_id: Uuid,
+        payload: Vec<u8>,
+    ) -> Result<Vec<u8>> {
+        let cryptor = Cryptor::new(salt, &Secret(secret.to_vec()))?;
+        Ok(cryptor
+            .unseal(Sealed {
+                version_id,
+                payload,
+            })?
+            .payload)
+    }
+}
+
 #[cfg(test)]
 mod test {
     use super::*;
